@@ -208,7 +208,8 @@ def main() -> int:
         "batches": batches,
         "replay_dir": replay_dir,
         "record_digests": bool(args.digests),
-        "hard_timeout_s": spec.get("hard_timeout_s", {}).get(args.tier, 3000),
+        # a worker that is still alive this long after the wall budgets of all its batches is dumped and killed
+        "hard_timeout_s": 1.5 * sum(b.get("budget_s", 600) for b in batches) + 1500,
         "no_shrink": args.no_shrink,
         "repo": repo,
         "known": load_known(),
